@@ -154,15 +154,16 @@ func main() {
 	}
 	run.Set("bounds", map[string]any{
 		"general_family":  "trees of depth <=3: all 13 shapes with <=2 children per node + the 3-children root; per element: name prefix {none,p,q} x declaration menu (none, xmlns=d, p=z, p=z+q=a, p=a [rebinding / one URI under two prefixes], xmlns=\"\", q=a, q=a+p=z [written order], xmlns=e, xmlns=d+p=z; p->urn:z q->urn:a so prefix order != URI order) x attribute menu; attribute-order family: ordered selections of 0..3 (thorough 4) of {a,b,p:a,p:b,q:a,q:c,xml:lang,xml:space} x 5 bindings x declared at {parent,self}; attribute values: sequences of <=2 of 27 pieces x quote style; text: sequences of <=2 (thorough 3) of 26 pieces (entities, char refs, CDATA forms, ]]>, CR, white space, child, comment, PI); prolog(10) x body form(15) x epilog(5); every element of every document is an apex; both declared algorithms; menu sizes per shape are in partA_families[].family",
-		"signed_classes":  "ClickOnce manifest fixture x every single edit of every kind + qualified attribute pairs over the fixture's own 7 prefixes on every element + escapable characters at one attribute and one text site, each signed by the real pipeline; VSIX: fixture x 4 keys x 4 digests + generated packages over 11 member names x 6 content types x ordered name pairs; AppX manifest fixture x every single edit",
+		"signed_classes":  "ClickOnce manifest fixture x every single edit of every kind + qualified attribute pairs over the fixture's own 7 prefixes on every element + escapable characters at one attribute and one text site + scope forests (one binding - the unknown prefix c19p or the default namespace - declared where it is not used, on the root or on a new group element, reaching every ordered sequence of 1..2 (thorough 3) sibling items; item = leaf {element in the namespace, attribute in it, re-declaration to another name, re-declaration to the same name} standing below 0..1 (thorough 2) elements that neither use nor declare it; at the root the items are the first or the last children; the leaf that un-declares the default namespace, xmlns=\"\", only with C19_SCOPE_UNDECLARE=1), each signed by the real pipeline; VSIX: fixture x 4 keys x 4 digests + generated packages over 11 member names x 6 content types x ordered name pairs; AppX manifest fixture x every single edit",
 		"metamorphic":     "signed fixture manifest and VSIX signature part x {rsaA,p256A} x digests (quick 2 combos each, thorough 6 each) x every single edit of every kind at every applicable site (attribute permutations: all for <=3 attributes, else every adjacent swap + reversal + rotation)",
 		"signature_width": "P-256/P-384/P-521 x (|r|,|s|) in {full, top byte zero, two top bytes zero}^2 x {enveloped, enveloping}; RSA-2048 until two signatures with a zero top byte",
-		"identity":        "6 fixture keys x {leaf-first, leaf-last chain} + leaf-only + self-signed + 22 generated subjects, x 3 manifest inputs",
+		"identity":        "6 fixture keys x {leaf-first, leaf-last chain} + leaf-only + self-signed + 22 generated subjects + 2 issuers with unusual key identifiers + 2 RSA keys chosen by token class (first hex digit zero; first octet zero), x 3 manifest inputs; token function: modulus length {1024,2048,3072,4096} x e {3,65537} x modulus 2^(bits-1)+2k+1, k<2048 (16384 public keys; tallies per token class in partD_token_function_family)",
 		"time_budget_s":   budget.Seconds(),
 	})
-	run.Rule("every member of each stated finite family is executed (documents x apex elements; signed documents x single edits; curves x (|r|,|s|) classes; keys x chain orders x subjects); distinct_nontrivial counts distinct reference canonical forms (per algorithm) over all (document, apex) pairs, plus distinct (signed document, edit kind, site) triples, (curve,|r|,|s|,mode) cases and identity cases, i.e. cases that differ in what the oracle had to produce, not repetitions")
+	run.Rule("every member of each stated finite family is executed (documents x apex elements; signed documents x single edits; curves x (|r|,|s|) classes; keys x chain orders x subjects); distinct_nontrivial counts distinct reference canonical forms (per algorithm) over all (document, apex) pairs, plus distinct (signed document, edit kind, site) triples, (curve,|r|,|s|,mode) cases and identity cases, i.e. cases that differ in what the oracle had to produce, not repetitions. Namespace scoping is enumerated along a chain (extension subtrees: outer binding, re-binding and use at three levels) and across siblings (scope forests: one unused binding above several branches that use it at depth 0..2 or re-declare it, every order, before and after the host's own users). The public key token is judged as a fixed-width field: on the documents written by the real pipeline for signing keys of each class of token (no leading zero digit, one, a zero first octet), and on the token function itself over a family of public keys. A visibly used prefix left unbound is keyed by where it happens (an apex canonicalised inside its document / the document Reference / SignedInfo / the license Reference, which the signer digests from a parentless copy)")
 	run.Assume("the JDK 17 canonicaliser (Apache Santuario in java.xml.crypto) implements Canonical XML 1.0 and Exclusive XML Canonicalization 1.0; it is the oracle for canonical octets and for classifying an edit as meaning-preserving or meaning-changing")
 	run.Assume("documents with a DOCTYPE are outside the family (none of the signed classes carries one)")
+	run.Assume("the public key token depends on the public key only through (modulus length, modulus octets, public exponent); the token-function family therefore uses moduli that need not be products of two primes")
 	run.Assume(".NET public key token and issuerKeyHash are defined for RSA keys; for ECDSA keys there is no documented definition, those cases are tallied, not judged")
 	os.RemoveAll(scratch)
 	run.Finish()
